@@ -225,7 +225,9 @@ SumRes(devs, i, ev, k) ==
   ELSE (IF ev[k].res = "listed" THEN ScoreOfD(devs, i.lists[k]) ELSE 0) + SumRes(devs, i, ev, k + 1)
 
 RuleD(devs, i) ==
-  IF i.place # "global" /\ "ScopedNoop" \in devs
+  (* check_early in a source / destination block is documented not to work:  *)
+  (* early checks are run for the top-level check block only                  *)
+  IF i.place # "global" /\ ("ScopedNoop" \in devs \/ i.early)
   THEN [action |-> "none", stage |-> "none", code |-> 0, queries |-> {}]
   ELSE
     LET ev  == [k \in DOMAIN i.lists |-> ListEval(devs, i, i.lists[k])]
@@ -235,7 +237,9 @@ RuleD(devs, i) ==
         refused == act \in {"permreject", "tempreject"}
         stg == IF ~refused THEN "none"
                ELSE IF i.level = "module" THEN "none"
-               ELSE IF i.early THEN "conn" ELSE "mail"
+               ELSE IF i.early THEN "conn"
+               ELSE IF i.place = "destination" THEN "rcpt"    \* recipient-scoped checks run at RCPT
+               ELSE "mail"
     IN [action |-> act, stage |-> stg,
         code |-> CASE act = "permreject" -> 554 [] act = "tempreject" -> 451 [] OTHER -> 0,
         queries |-> qs]
@@ -469,9 +473,9 @@ RuleSatisfiesProp == Prop(in, Rule(in))
 (* action is a function of the sum of the scores of the lists that list the *)
 (* client, and the rule asks exactly for documented names                   *)
 RuleIsScoreSum ==
-  /\ ~AnyTemp(in) => Rule(in).action = Decide(in, Score(in))
+  /\ (Claimed(in) /\ ~AnyTemp(in)) => Rule(in).action = Decide(in, Score(in))
   /\ Rule(in).queries \subseteq Documented(in)
-  /\ (~AnyTemp(in) /\ Score(in) = 0 /\ ListedSet(in) = {}) =>
+  /\ (Claimed(in) /\ ~AnyTemp(in) /\ ListedSet(in) = {}) =>
         {x \in Documented(in) : x.t = "addr"} \subseteq Rule(in).queries
 (* as-is configuration: the code's deviations must violate the property *)
 AsIsSatisfiesProp == Prop(in, AsIs(in))
